@@ -200,7 +200,12 @@ def run(tier):
     chk.add_tlc(res1)
     res2 = C.tlc('Cmdline', 'MC_Cmdline_pairs.cfg', simulate=sim, depth=40, workers=8)
     chk.add_tlc(res2)
-    for r in (res1, res2):
+    runs = [res1, res2]
+    if tier != 'quick':
+        res3 = C.tlc('Cmdline', 'MC_Cmdline_triples.cfg', simulate='num=3000', depth=40, workers=8)
+        chk.add_tlc(res3)
+        runs.append(res3)
+    for r in runs:
         if r.violated and r.violated != 'FailSafe':
             raise C.Machinery('Cmdline spec invariant %s violated' % r.violated)
         if not r.ok and not r.violated:
@@ -210,7 +215,7 @@ def run(tier):
         if v['kind'] in BAD:
             failing_keys.setdefault(fault_key(k), set()).add((v['kind'], v['exc'], v['func']))
     scen = {}
-    for rec in list(res1.printed()) + list(res2.printed()):
+    for rec in [x for r in runs for x in r.printed()]:
         key = tuple(rec['faults'])
         scen[key] = rec
     if not scen:
@@ -236,7 +241,7 @@ def run(tier):
         if o['kind'] in BAD:
             # attribute to the site the design says fires first, else to the first site
             sid = fired or (sl[0] if sl else None)
-            if len(sl) == 2 and fired is None:
+            if len(sl) >= 2 and fired is None:
                 sid = '+'.join(sl)
             # with several faults the failure is attributed to the site the design says fires first;
             # if that attribution is not a recorded finding, the other present site is tried (two
@@ -245,7 +250,7 @@ def run(tier):
             is_known = lambda sg: any(all(C._match(sg.get(k), v) for k, v in f['match'].items()) for f in chk.findings)
             known = [x for x in cands if is_known(signature(x, o))]
             sg = signature(known[0] if known else sid, o)
-            if not known and len(sl) == 2:
+            if not known and len(sl) >= 2:
                 # two faults: a fault whose value is recorded as reaching the computation unchecked (it fails on
                 # its own in some base command) is the same finding when the second fault merely changes WHERE the
                 # bad number surfaces (e.g. no tapering -> no taper assertion -> the report writer instead)
@@ -278,6 +283,7 @@ def run(tier):
     chk.cov['model_predicts_failure_but_code_is_fine'] = pess
     chk.cov['scenarios_single'] = sum(1 for j in jobs if len(j[0]) <= 1)
     chk.cov['scenarios_pairs'] = sum(1 for j in jobs if len(j[0]) == 2)
+    chk.cov['scenarios_triples'] = sum(1 for j in jobs if len(j[0]) == 3)
     return chk.finish(
         rule='one case per TLC scenario (no fault, every single fault site, simulated pairs of faults on different '
              'option groups of one base command); non-trivial = at least one fault; distinct by site ids')
